@@ -130,8 +130,9 @@ MayPass(cfg, scope, t, hdr, b) ==
       /\ CredentialOK(cfg, scope, t.user, AsCont(b).v.msg)
 \* the password a request presents (C18): the user message answering GETPASS, or the data field of a PAP START
 PwOfReq(t, hdr, b) ==
-   IF t.stage = "asked_pass" /\ AsCont(b).cls = "ok" THEN AsCont(b).v.msg
-   ELSE IF t.stage = "idle" /\ hdr.ty = 1 /\ AsStart(b).cls = "ok" /\ AsStart(b).v.atype = 2 THEN AsStart(b).v.data
+   \* (layout only: a password need not pass the field validation to be a password)
+   IF t.stage = "asked_pass" /\ DecAuthenContinue(b).ok THEN DecAuthenContinue(b).v.msg
+   ELSE IF t.stage = "idle" /\ hdr.ty = 1 /\ DecAuthenStart(b).ok /\ DecAuthenStart(b).v.atype = 2 THEN DecAuthenStart(b).v.data
    ELSE <<>>
 \* transcript update from an observed reply (status, to request b in stage t)
 TNext(t, hdr, b, status) ==
